@@ -438,6 +438,7 @@ def _guards(ctx, P):
 
     def m_cons(ev, args, kw, node):
         cons.append((list(args), dict(kw)))
+        ev.events.append(("cons-call", list(args), dict(kw)))
         return Obj("DataArray", "RESULT")
 
     mm = dict(da_method_models())
@@ -452,17 +453,26 @@ def _guards(ctx, P):
             g = make_grid(("AZ",), boundary="fill", fill_value=0.0)
             da = make_da("da", [Sym("t"), dimsym("AZ", "center")], name=Sym("nm"))
             td = make_da("td", [Sym("t"), dimsym("AZ", on)], name=Sym("tdn"))
-            outs = ev.run_paths(tfi, lambda: dict(grid=g, axis_name=AZ, da=da, target=make_da("target", [Sym("lev")]), target_data=td, target_dim=None, method="conservative",
+            outs = ev.run_paths(tfi, lambda: dict(grid=g, axis_name=AZ, da=da, target=make_da("target", [Sym("lev")], coords={Sym("lev"): (Sym("lev"),)}), target_data=td, target_dim=None, method="conservative",
                                                   mask_edges=True, bypass_checks=False, suffix="_t"))
         except Unmodelled as e:
             ctx.unknown("R07.4", f"target_data on {on}", str(e))
             continue
         bad = None
-        if any(o.kind != "return" for o in outs) or len(cons) != 1:
-            bad = "the conservative interpolation is not reached"
+        per_path = [[e[1:] for e in o.events if e[0] == "cons-call"] for o in outs]
+        if any(o.kind != "return" for o in outs):
+            bad = f"a plain call raises {[o.value for o in outs if o.kind != 'return'][0]}"
+        elif any(len(c) != 1 for c in per_path):
+            bad = "the conservative interpolation is not reached exactly once on every path"
         else:
-            a, kw = cons[0]
+          for (a, kw), in per_path:
             theta = a[1]
+            from ..harness import foreign_ops
+
+            if isinstance(a[2], Obj) and a[2].name == "target" and foreign_ops(a[2].eff)[0]:
+                sel = a[2].eff[0]
+                bad = bad or (f"the interpolation receives target[{sel[1]!r}] (the labels of the dimension coordinate) instead of the caller's bin edges" if sel[0] == "getitem"
+                              else f"the bin edges are altered by {foreign_ops(a[2].eff)[0]} before the interpolation")
             if must_interp:
                 if len(seen) != 1 or seen[0][1].get("boundary") != "extend" or seen[0][0][1].name != "td" or seen[0][0][2] != AZ:
                     bad = "target_data on cell centres is not interpolated to the cell bounds with boundary='extend' along the transform axis"
